@@ -13,8 +13,8 @@ def cmpOf (mode : String) : Option (Int → Int → Bool) :=
 structure Sess where
   t : Tree Int
   lt : Int → Int → Bool
-  seqs : List (List Int)
-  pos : List Nat
+  seqs : Array (Array Int)
+  pos : Array Nat
   inited : Bool := false
 
 abbrev St := Option Sess
@@ -35,10 +35,15 @@ def srcStr (s : Nat) : String := if s = invalid then "-1" else toString s
 def entryStr (guarded : Bool) (e : Entry Int) : String :=
   srcStr e.source ++ ":" ++ (if guarded && e.sup then "S" else toString e.key)
 
+/-- copy guarded classes also show the `key` member of supremum nodes -/
+def entryStrV (v : Variant) (e : Entry Int) : String :=
+  if v.copy && v.guarded && e.sup then srcStr e.source ++ ":S/" ++ toString e.key else entryStr v.guarded e
+
 def stateStr (s : Sess) : Option String := do
   let w ← s.t.minSource
+  if s.t.k > 256 then pure s!"w={srcStr w} T=#{s.t.k}" else
   let es ← (List.range s.t.k).mapM fun i => rd s.t.losers i
-  pure s!"w={srcStr w} T=[{" ".intercalate (es.map (entryStr s.t.v.guarded))}]"
+  pure s!"w={srcStr w} T=[{" ".intercalate (es.map (entryStrV s.t.v))}]"
 
 def curKey (s : Sess) (i : Nat) : Option Int := do
   let q ← s.seqs[i]?
@@ -51,19 +56,19 @@ def doNew (ts : List String) : Option Sess := do
     let v ← variantOf v
     let lt ← cmpOf c
     let k ← k.toNat?
-    if k < 1 || k > 64 || rest.length ≠ k then none
+    if k < 1 || k > 200000 || rest.length ≠ k then none
     let sentinel : Option Int ← (if sen = "-" then some none else (sen.toInt?).map some)
     if !v.guarded && sentinel.isNone then none
     let seqs ← rest.mapM intCsv
     if seqs.any (fun q => q.any (fun x => x < 0 || x > 1000000)) then none
     if !v.guarded && seqs.any (·.isEmpty) then none
     let t ← construct v k (sentinel.getD 0) (0 : Int)
-    pure { t := t, lt := lt, seqs := seqs, pos := List.replicate k 0 }
+    pure { t := t, lt := lt, seqs := (seqs.map List.toArray).toArray, pos := Array.replicate k 0 }
   | _ => none
 
-def doInit (s : Sess) : Option (Sess × String) := do
+def doInit (s : Sess) (order : List Nat) : Option (Sess × String) := do
   if s.inited then none
-  let t ← insertFrom 0 ((List.range s.t.ik).map (curKey s)) 0 s.t
+  let t ← insertList 0 (order.map fun i => (i, curKey s i)) s.t
   let t ← t.init s.lt
   let s' := { s with t := t, inited := true }
   let out ← stateStr s'
@@ -78,14 +83,14 @@ def canReplace (s : Sess) : Bool :=
     w < s.t.ik && (curKey s w).isSome && !(s.t.v.guarded && W.sup) &&
     (s.t.v.guarded ||
       match s.pos[w]?, s.seqs[w]? with
-      | some p, some q => p + 1 < q.length
+      | some p, some q => p + 1 < q.size
       | _, _ => false)
 
 def doReplace (s : Sess) : Option (Sess × String) := do
   let W ← rd s.t.losers 0
   let w := W.source
   let p ← s.pos[w]?
-  let s1 := { s with pos := s.pos.set w (p + 1) }
+  let s1 := { s with pos := s.pos.setIfInBounds w (p + 1) }
   let t ← s1.t.deleteMinInsert s1.lt 0 (curKey s1 w)
   let s2 := { s1 with t := t }
   let out ← stateStr s2
@@ -97,11 +102,21 @@ def step' (st : St) (ts : List String) : St × String :=
     match doNew rest with
     | some s => (some s, "ok")
     | none => (none, "bad-op")
-  | ["init"] =>
+  | "init" :: rest =>
     match st with
-    | some s => match doInit s with
-      | some (s', out) => (some s', out)
-      | none => (st, if s.inited then "bad-op" else "MODEL-FAILURE")
+    | some s =>
+      let order : Option (List Nat) := match rest with
+        | [] => some (List.range s.t.ik)
+        | [p] => (Drv.natCsv p).bind fun l =>
+            if l.length = s.t.ik && l.all (· < s.t.ik) && l.eraseDups.length = l.length then some l else none
+        | _ => none
+      match order with
+      | none => (st, "bad-op")
+      | some ord =>
+        if s.inited then (st, "bad-op") else
+        match doInit s ord with
+        | some (s', out) => (some s', out)
+        | none => (st, "MODEL-FAILURE")
     | none => (st, "bad-op")
   | ["replace"] =>
     match st with
